@@ -180,15 +180,18 @@ func (csm *ClusterShardMapper) mapMstShards(s *influxql.Measurement, csming *Clu
 			if !engineTypes[g.EngineType] {
 				continue
 			}
-			if shardKeyInfo == nil {
-				shardKeyInfo = mst.GetShardKey(groups[i].ID)
+			// the shard key of a measurement may differ from group to group (ALTER MEASUREMENT ... SHARDKEY):
+			// resolve it for every group, as the writer does, unless the database defines one
+			ski := shardKeyInfo
+			if ski == nil {
+				ski = mst.GetShardKey(groups[i].ID)
 			}
 			aliveShardIdxes := csm.MetaClient.GetAliveShards(s.Database, &groups[i], true)
 			var shs []meta2.ShardInfo
 			if opt.HintType == hybridqp.FullSeriesQuery || opt.HintType == hybridqp.SpecificSeriesQuery {
-				shs, csming.seriesKey = groups[i].TargetShardsHintQuery(mst, shardKeyInfo, condition, opt, aliveShardIdxes)
+				shs, csming.seriesKey = groups[i].TargetShardsHintQuery(mst, ski, condition, opt, aliveShardIdxes)
 			} else {
-				shs = groups[i].TargetShards(mst, shardKeyInfo, condition, aliveShardIdxes)
+				shs = groups[i].TargetShards(mst, ski, condition, aliveShardIdxes)
 			}
 
 			csm.updateShardInfosByPtID(s, g, shs, &shardInfosByPtID)
